@@ -163,26 +163,28 @@ def oracle(c, out, scales):
 def run(report, tier):
     E.setup_report(report, "C04")
     backends = ["f64", "dec"]
-    frontend.dump_repo_parallel(backends)
+    keys = E.dump_worlds(backends)
     pool = mpool.Pool()
     try:
-        desc = {be: pool.describe(be) for be in backends}
+        desc = E.describe_worlds(pool, keys)
         tasks = []
         spec_ops = set((a if a != "AmountT" else None, op, b if b != "AmountT" else None, r if r != "AmountT" else None) for a, op, b, r in catalogue.operator_instances())
-        for be in backends:
-            d = desc[be]
-            amt = "f64" if be == "f64" else "Decimal"
+        astro_ops = set(catalogue.operator_instances(catalogue.ASTRO))
+        for label, key in keys.items():
+            d = desc[label]
+            amt = "Decimal" if label == "dec" else "f64"
             found = set(tuple(None if x == amt else x for x in i) for i in d["operators"])
-            missing = spec_ops - found
-            report.oblig("%s operator instances declared by the derivations are all generated" % be, not missing, False)
+            want = astro_ops if label == "astro" else spec_ops
+            missing = want - found
+            report.oblig("%s operator instances declared by the derivations are all generated" % label, not missing, False)
             if missing:
-                report.inconcl("%s: operator instances expected from the declared derivations are missing in the MIR: %s" % (be, sorted(map(str, missing))[:6]))
-            report.notes.append("%s: %d operator instances in MIR (%d expected from spec)" % (be, len(found), len(spec_ops)))
+                report.inconcl("%s: operator instances expected from the declared derivations are missing in the MIR: %s" % (label, sorted(map(str, missing))[:6]))
+            report.notes.append("%s: %d operator instances in MIR (%d expected from spec)" % (label, len(found), len(want)))
             for inst in d["operators"]:
                 us = d["units"][inst[0]]
                 for k, ua in enumerate(us):
                     forms = True if tier == "thorough" else (k in (0, len(us) - 1))
-                    tasks.append((be, inst, ua, forms))
+                    tasks.append((key, inst, ua, forms))
         E.shuffle(tasks)
         report.bounds.update({
             "f64_amount_box": "a, b = 0 or 2^-400 <= |.| <= 2^400 (divisor non-zero); every intermediate proved zero-or-normal",
@@ -190,8 +192,8 @@ def run(report, tier):
             "units": "every operand unit pair of each of the operator instances; reference forms on %s" % ("every pair" if tier == "thorough" else "the first and last left-operand unit rows"),
         })
         cands = pool.run(report, task, tasks)
+        pool.cross_check(report)
         E.native_confirm(report, "C04", cands, desc, oracle, probes=E.probe_amounts_2)
-        if tier == "thorough":
-            E.translator_validation(report, pool, desc, ops=("mul", "div"))
+        E.translator_validation(report, pool, desc, ops=("mul", "div"), full=(tier == "thorough"))
     finally:
         pool.close()
